@@ -28,6 +28,9 @@ def jobs(tier):
         if k != 2:
             J.append(Job("c11", "popall", "3,0,0,0" if q else "4,0,0,0", p))
             J.append(Job("c11", "popall", "2,1,0,0" if q else "3,1,0,0", p))
+        if s == 0 and k != 2:
+            J.append(Job("c11", "repush", "3,0,0,0" if q else "4,0,0,0", p))
+            J.append(Job("c11", "repush", "2,1,0,0", p))
         if s == 2:
             J.append(Job("c11", "aba", "3,0,0,0" if q else "4,0,0,0", p))
             J.append(Job("c11", "aba", "2,1,0,0", p))
